@@ -244,8 +244,23 @@ def conflict (nw : Network) (strict : Bool) (t : Tour) (a b : Nat) : R (Option (
   let sl ← slice t.nodes s e
   pure (pathTrusted nw sl)
 
-/-- `Tour::sub_path` -/
-def subPath (nw : Network) (strict : Bool) (t : Tour) (a b : Nat) : R (List Nat) := do
+/-- `Tour::sub_path` (repaired, finding F13: the endpoints are located by `position_of`; the
+    pinned code used `latest_not_reaching_node`, see `subPathPinned`) -/
+def subPath (nw : Network) (t : Tour) (a b : Nat) : R (List Nat) := do
+  let s ← match t.positionOf a with
+    | .ok s => pure s
+    | .error _ => .error (.err "segment.start() not part of Tour.")
+  let e ← match t.positionOf b with
+    | .ok e => pure e
+    | .error _ => .error (.err "segment.end() not part of Tour.")
+  if s > e then .error (.err "segment.start() is after segment.end().") else
+  let sl ← slice t.nodes s (e + 1)
+  match pathTrusted nw sl with
+  | some p => pure p
+  | none => .error (.panic "tour.rs: segment is empty path.")
+
+/-- the pinned `Tour::sub_path` -/
+def subPathPinned (nw : Network) (strict : Bool) (t : Tour) (a b : Nat) : R (List Nat) := do
   let some s ← latestNotReachingNode nw strict t a | .error (.err "segment.start() not part of Tour.")
   if a != (← idxAt t.nodes s) then .error (.err "segment.start() not part of Tour.") else
   let some e ← latestNotReachingNode nw strict t b | .error (.err "segment.end() not part of Tour.")
